@@ -138,10 +138,11 @@ class C09(Prop):
             knife = (lo_knife(sc) if c['kind'] == 'long_only' else ls_knife(sc)) if o['alloc'] else (lambda a: False)
             kn = any(knife(a) for a, _ in o['alloc'])
             # allocation row: same keys in the same order, same weights
-            if [a for a, _ in malloc] != [a for a, _ in o['alloc']]:
+            if sorted(a for a, _ in malloc) != sorted(a for a, _ in o['alloc']):
                 j.disagreements.append('%s: allocation keys model=%s impl=%s' % (w, [a for a, _ in malloc], [a for a, _ in o['alloc']]))
             else:
-                for (a, x), (_, y) in zip(malloc, o['alloc']):
+                # (compared as a mapping: the order of the keys in the recorded row is not part of the property)
+                for (a, x), (_, y) in zip(sorted(malloc), sorted(o['alloc'])):
                     if not close(x, y, Fraction(1, 10**12)):
                         j.disagreements.append('%s: allocation of %s model=%s impl=%s' % (w, a, float(x), y))
             if frac:
